@@ -160,7 +160,7 @@ Send(c) == /\ pc[c] = "send" /\ stp[c] # None
               CASE Class(s) = "accfail"  -> /\ Attempt(c, n, fresh[c], TRUE, FALSE, "Other", FALSE, t)
                                             /\ SetConn(n, FALSE, {"failure"}) /\ cache' = KeepOnFailure(n) /\ Fail(c, "Other")
                                             /\ stp' = [stp EXCEPT ![c] = None] /\ UNCHANGED <<steps, fk>>
-                [] Class(s) = "sendfail" -> /\ Attempt(c, n, fresh[c], TRUE, s.p # "zero", "Other", FALSE, t)
+                [] Class(s) = "sendfail" -> /\ Attempt(c, n, fresh[c], TRUE, s.p \notin {"zero", "#0"}, "Other", FALSE, t)
                                             /\ SetConn(n, FALSE, {"failure"}) /\ cache' = KeepOnFailure(n) /\ Fail(c, "Other")
                                             /\ stp' = [stp EXCEPT ![c] = None] /\ UNCHANGED <<steps, fk>>
                 [] Class(s) = "reqcut"   -> /\ Attempt(c, n, fresh[c], TRUE, TRUE, "Other", FALSE, t)
